@@ -826,3 +826,25 @@ PROPS["C44"]["functions"].append("ConsensusManagerBlueprint::{get_current_time_v
 PROPS["C44"]["bounds"] += "; time queries: every stored clock, every i64 instant, both precisions, all five operators"
 
 PROPS["C37"]["functions"].append("GeneralResourceConstraint::normalize (normalisation preserves the set of accepted balances)")
+
+PROPS["C07"]["functions"].append(
+    "radix_engine::system::system_callback::System::update_transaction_tracker (via the verif shim "
+    "system_callback::verif::update_transaction_tracker; Engine M: Track and SBOR are environment stubs, natively a real "
+    "Track over a one-substate database)")
+PROPS["C07"]["bounds"] += ("; Engine M: ONE commit (update_transaction_tracker) from an arbitrary tracker state -- any partition "
+                           "range lo < hi within u8 of at most 255 partitions (the count is computed in u8; the real ring is 1..=255), any start partition in it, epochs_per_partition <= 2^40, start epoch <= 2^62, "
+                           "any next epoch >= start epoch -- with exactly one nullification (transaction intent or subintent) whose "
+                           "expiry epoch is covered by the tracker and not before the next epoch, success or failure")
+PROPS["C07"]["outside"] = ("that Track / the database persist and return what update_transaction_tracker writes (Track is "
+                           "exercised natively only), the executor's control flow around update_transaction_tracker and the "
+                           "read of the status at transaction start (check_intent_validity); several nullifications in one "
+                           "transaction (the loop body is the same per intent); simulated (preview) nullifications; tracker "
+                           "lag >= 10460 epochs")
+PROPS["C07"]["assumptions"] += ["Track::{read_substate, set_substate, delete_partition} and the SBOR conversions around them are "
+                                "environment stubs that record the partition number and the typed value (replayed natively over "
+                                "the real Track)",
+                                "the expiry epoch of a nullification is covered by the tracker (the code `expect`s it; shown by "
+                                "c07_tracker_covers_every_valid_intent) and is >= the next epoch (the intent was valid in the "
+                                "epoch that commits it)"]
+PROPS["C07"]["trusted_base"] = KANI_TB + MIR_TB
+PROPS["C07"]["mir"] = True
